@@ -7,7 +7,7 @@ import time
 from abc import ABC, abstractmethod
 from typing import TYPE_CHECKING, Any, Literal
 
-from hypergraph.exceptions import ExecutionError
+from hypergraph.exceptions import ExecutionError, MissingInputError
 from hypergraph.runners._shared.helpers import (
     _UNSET_SELECT,
     normalize_select,
@@ -33,6 +33,7 @@ from hypergraph.runners._shared.validation import (
     resolve_runtime_selected,
     validate_inputs,
     validate_map_compatible,
+    validate_map_inputs,
     validate_node_types,
     validate_runner_compatibility,
 )
@@ -282,9 +283,26 @@ class AsyncRunnerTemplate(BaseRunner, ABC):
         _validate_error_handling(error_handling)
 
         map_over_list = [map_over] if isinstance(map_over, str) else list(map_over)
+        missing_input: MissingInputError | None = None
+        try:
+            validate_map_inputs(
+                graph,
+                normalized_values,
+                map_over_list,
+                entrypoint=entrypoint,
+                select=select,
+                on_internal_override=on_internal_override,
+            )
+        except MissingInputError as e:
+            if error_handling != "continue" or any(name not in normalized_values for name in map_over_list):
+                raise
+            missing_input = e
         input_variations = list(generate_map_inputs(normalized_values, map_over_list, map_mode, clone))
         if not input_variations:
             return []
+        if missing_input is not None:
+            # continue mode: every item fails the same way; nothing ran, nothing is emitted
+            return [RunResult(values={}, status=RunStatus.FAILED, run_id=_generate_run_id(), error=missing_input) for _ in input_variations]
         if max_concurrency is None and len(input_variations) > MAX_UNBOUNDED_MAP_TASKS:
             raise ValueError(
                 f"Too many map tasks without a concurrency limit: {len(input_variations)}. "
